@@ -226,6 +226,10 @@ def run(ctx):
                     'termination of the write path in general', 'the split-string scanner of the zck tool']
     for config in ctx.configs():
         prog = ctx.prog(config)
+        # ---- n  every byte produced reaches the output: the writer and the zck tool never step over bytes
+        from ..rules import extra as _x1n
+        _x1n.check_no_forward_seek(ck, prog, config, 'C01-n', ('zck_close', 'zck_write', 'zck_end_chunk'), 'write path',
+                                   tool_unit='src/zck.c')
         # ---- a
         zc = prog.need_func('zck_close')
         enders = set(['zck_end_chunk', c16.chunk_end_function(prog).name])
